@@ -123,6 +123,12 @@ CHECKS = {
    design_ref="DESIGN.md section 6 C01",
    note=COMMON_NOTE + "Hand-modelled: Model/KemSecrets.v; restates theorems of C10 / C11. The equality of the members' states is established on the implementation by exhaustive pairwise comparison over generated histories, not by an end-to-end theorem.",
    technique="Coq proof (path-secret chain agreement, proposal agreement, epoch step) + mixed-provider random-history differential"),
+ "C14": dict(
+   category="proof",
+   text="Coq theorems (Props/C14.v) fix the REFERENCE the three foreign-code providers are compared with: for every input the Gallina SHA-2 digest has the suite's length and consists of bytes, HMAC / HKDF-Extract give Nh bytes, HKDF-Expand gives exactly the requested length and asking for fewer bytes gives a prefix; the chain-validation model is sound (an accepted chain yields the leaf's key and a path of certificates valid at the validation time, each naming and signed by the next, every issuer a CA, ending in a trust anchor), complete for chains in issuer order, rejects every expired / not-yet-valid leaf, includes both ends of the validity period, ignores what follows the anchor, rejects a broken link, an empty chain and an empty trust store, and without a validation time only drops the time checks. PARTIAL by nature: that OpenSSL / AWS-LC / RustCrypto compute these functions is not a theorem (foreign code); it is decided by the differential: every deterministic primitive on every provider of every suite 1-7 byte-identical (errors included) over empty / block-boundary / oversize inputs and equal to the Gallina reference evaluated in Coq; sign x verify and HPKE seal x open (base, PSK, exporter) matrices between all provider pairs with wrong data / signature / aad / info / psk; generated PKIs (16 mutation kinds + boundary sweep of every certificate position x notBefore/notAfter x -1/0/+1 s) against the model for verdict and returned key; mixed-provider groups on suites 1,2,3,5,7 with the agreement oracle of C01.",
+   design_ref="DESIGN.md section 6 C14",
+   note=COMMON_NOTE + "Hand-modelled: Model/X509.v (tokens for names and keys), Model/Sha2.v, Model/Hkdf.v. AEAD, signatures, KEM and HPKE have no Gallina reference and are compared between providers only. Known findings F14 (notAfter second), F15 (reordered intermediates), F25 (malformed Ed25519 secret keys).",
+   technique="Coq proof (reference KDF shape, chain-validation model) + three-provider differential against the Gallina reference"),
 }
 NOT_YET = {}
 props = [json.loads(l) for l in open(os.path.join(V, "properties.jsonl"))]
@@ -156,7 +162,7 @@ m = {
  },
  "engines": [
    {"name": "coq", "path": "/verif/coq", "serves_properties": sorted(CHECKS), "kind_free_text": "Coq 8.16.1 development: Gen (translated), Model, Proofs, Props (pinned theorems)"},
-   {"name": "rs2v", "path": "/verif/translator", "serves_properties": ["C20", "C12", "C13"], "kind_free_text": "syn-based Rust to Gallina translator, run on every check"},
+   {"name": "rs2v", "path": "/verif/translator", "serves_properties": sorted(CHECKS), "kind_free_text": "syn-based Rust to Gallina translator, run on every check"},
    {"name": "mlsh", "path": "/verif/harness", "serves_properties": sorted(CHECKS), "kind_free_text": "Rust harness over the real library (path deps on /repo, --cfg mls_rs_verif)"},
  ],
  "checks": checks,
